@@ -70,6 +70,22 @@ func sinkFor(fn *ssa.Function) *sinkInfo {
 					if k < 0 {
 						continue
 					}
+					// only a variable that is itself an operand of the result list: every use is the store into
+					// the result slot or the return (a variable read for a call argument is read when that call is
+					// evaluated)
+					direct := true
+					if refs := ld.Referrers(); refs != nil {
+						for _, r := range *refs {
+							switch r.(type) {
+							case *ssa.Store, *ssa.Return, *ssa.DebugRef:
+							default:
+								direct = false
+							}
+						}
+					}
+					if !direct {
+						continue
+					}
 					var last *ssa.Call
 					for _, later := range b.Instrs[li+1:] {
 						if c, ok := later.(*ssa.Call); ok && in(c.Pos()) == k {
